@@ -9,7 +9,7 @@ from .c05 import env_of
 
 PLAN = {
     "quick": {"shards": 8, "cases": 500, "min_nontrivial": 2000, "budget_s": 300},
-    "thorough": {"shards": 16, "cases": 2500, "min_nontrivial": 20000, "budget_s": 1500},
+    "thorough": {"shards": 16, "cases": 8000, "min_nontrivial": 44800, "budget_s": 1500},
 }
 RULE = ("a case is a schema over all persistent families (containers of encoded items such as ListField(BytesField), "
         "DictField(StringField, BytesField(hex)), ListField(ChallengeField), ListField(SecureField); lists of schemas / "
